@@ -130,6 +130,17 @@ def handle (j : Json) : Except String Json := do
                       ("loc_fire_period", intOutJ (Extracted.TpArgs.loc_fire_period m)),
                       ("tp_frame_type", argValJ (Extracted.TpArgs.tp_frame_type m)),
                       ("tp_condition", argValJ (Extracted.TpArgs.tp_condition m))])
+  | "both" =>
+    -- one tracepoint on the service path (enum numbers, converted) and on the register path (ready-made definitions)
+    let tp ← parseTP j
+    let defs ← (← getArr j "defs").toList.mapM (fun m => do
+      let ls ← (← getArr m "labels").toList.mapM parseLabel
+      pure ({ name := ← getStr m "name", type := ← getStr m "type",
+              labels := convert_label_expressions ls, expression := ← getStr m "expression",
+              «namespace» := ← getStr m "namespace", help := ← getStr m "help", unit := ← getStr m "unit" } : MetricDefinition))
+    let svc := match convertResponseRaw [] [tp] with | some ts => ts.map triggerJ | none => []
+    let code := (registerCode [⟨tp.id, tp.path, tp.line, tp.args, tp.watches, defs⟩]).map optTriggerJ
+    pure (Json.mkObj [("service", Json.arr svc.toArray), ("code", Json.arr code.toArray)])
   | "build" =>
     let tp ← parseTP j
     pure (Json.mkObj [("trigger", optTriggerJ tp.build)])
